@@ -38,16 +38,16 @@ pub mod pg {
     pub fn fmt_opaque() -> (r: String) { unimplemented!() }
     pub struct BoxDynError;
     impl From<String> for BoxDynError { #[verifier::external_body] fn from(e: String) -> BoxDynError { BoxDynError } }
-    /// ASSUMED here, PROVED in unit `trackers` (ChainTracker::new/step/stats): `step` succeeds iff the state has n_params entries
+    /// ASSUMED here, PROVED in unit `trackers` (ChainTracker::new/step/stats): `step` fails iff the state has fewer than n_params entries
     #[verifier::external_body]
     pub struct ChainTracker { _p: u8 }
     pub uninterp spec fn tracker_np(t: ChainTracker) -> int;
     impl ChainTracker {
         #[verifier::external_body]
-        pub fn new<X>(n_params: usize, initial_state: &[X]) -> (r: ChainTracker) requires initial_state@.len() == n_params ensures tracker_np(r) == n_params { unimplemented!() }
+        pub fn new<X>(n_params: usize, initial_state: &[X]) -> (r: ChainTracker) requires initial_state@.len() >= n_params ensures tracker_np(r) == n_params { unimplemented!() }
         #[verifier::external_body]
         pub fn step<X>(&mut self, x: &[X]) -> (r: Result<(), BoxDynError>)
-            ensures (r is Ok) == (x@.len() == tracker_np(*old(self))), tracker_np(*final(self)) == tracker_np(*old(self))
+            ensures (r is Ok) == (x@.len() >= tracker_np(*old(self))), tracker_np(*final(self)) == tracker_np(*old(self))
         { unimplemented!() }
         #[verifier::external_body]
         pub fn stats(&self) -> ChainStats { unimplemented!() }
